@@ -440,7 +440,7 @@ fn any_msg() {
 pub fn error_item_any_number() {
     any_msg();
     // the number is symbolic here (its digits for every i16 are also `dec_i16`'s obligation)
-    error_case!(kani::any(), 1, false);
+    error_case!(kani::any(), 2, true);
 }
 #[kani::proof]
 #[kani::unwind(16)]
